@@ -17,7 +17,8 @@
    100-102  Empty, 134-136 Alloc
    UserList __delitem__/reverse/clear/__len__ act on .data directly;           py_delitem py_delslice py_reverse py_clear
    Sequence.__iter__: i = 0; while True: yield self[i]; i += 1 until IndexError   iter_loop
-   geom3d.py:357 / spatialvector.py:129  __getitem__ = cls(data[i]) for int and slice  (own_slice = false)          *)
+   spatialvector.py:129-133  SpatialVector.__getitem__: cls.Empty() for an empty slice, else cls(data[i])  (own_slice = false)
+   (geom3d.py:357 Plucker and spatialvector.py:556 SpatialInertia keep the bare cls(data[i]); they are not modelled)   *)
 From Coq Require Import ZArith List Lia Bool.
 From SM Require Import Model.C10_PyList.
 Import ListNotations.
@@ -74,7 +75,12 @@ Definition m_getslice (C : cls) (st : list Z) (a b c : option Z) : res out :=
                end
     end
   else
-    match py_getslice st a b c with Ok vs => construct vs | Raise e => Raise e end.
+    (* spatialvector.py:129-133 (after fix 40af48b): Empty() if len(self.data[i]) == 0 else cls(self.data[i]) *)
+    match py_getslice st a b c with
+    | Raise e => Raise e
+    | Ok [] => Ok (Obj [])
+    | Ok vs => construct vs
+    end.
 
 (* ------------------------------------------------------------------ Sequence.__iter__ *)
 Fixpoint iter_loop (st : list Z) (fuel : nat) (i : Z) : list (list Z) :=
@@ -171,8 +177,6 @@ Definition operand_nonempty (v : operand) : bool := match v with Same [] => fals
 
 Definition op_ok (C : cls) (st : list Z) (o : op) : bool :=
   match o with
-  | GetSlice a b c => if own_slice C then true
-                      else match py_getslice st a b c with Ok [] => false | _ => true end
   | SetItem _ v | Append v | Insert _ v => operand_nonempty v
   | CtorIter => match st with [] => false | _ => true end
   | CtorFrom ts => match ts with [] => false | _ => true end
@@ -239,13 +243,15 @@ Proof.
 Qed.
 
 (* THE slice lemma, full strength: for ALL lists, starts, stops and steps (step 0 included: both raise ValueError) *)
-Lemma slice_full : forall C st a b c, own_slice C = true ->
+Lemma slice_full : forall C st a b c,
   m_getslice C st a b c = match py_getslice st a b c with Ok vs => Ok (Obj vs) | Raise e => Raise e end.
 Proof.
-  intros C st a b c HC. unfold m_getslice, py_getslice. rewrite HC.
-  destruct (py_slice_indices (zlen st) a b c) as [ks|e] eqn:E; [|reflexivity].
-  rewrite collect_in_range by (intros k Hk; eapply slice_indices_in_range; [apply zlen_nonneg | exact E | exact Hk]).
-  destruct (map (znth st) ks); reflexivity.
+  intros C st a b c. unfold m_getslice. destruct (own_slice C).
+  - unfold py_getslice.
+    destruct (py_slice_indices (zlen st) a b c) as [ks|e] eqn:E; [|reflexivity].
+    rewrite collect_in_range by (intros k Hk; eapply slice_indices_in_range; [apply zlen_nonneg | exact E | exact Hk]).
+    destruct (map (znth st) ks); reflexivity.
+  - destruct (py_getslice st a b c) as [[|x t]|e]; reflexivity.
 Qed.
 
 (* iteration through __getitem__ until IndexError yields exactly the elements, in order, each as a single-valued object *)
@@ -284,9 +290,7 @@ Qed.
 Lemma step_refines : forall C st o, op_ok C st o = true -> m_step C st o = s_step st o.
 Proof.
   intros C st o H. destruct o; cbn [m_step s_step op_ok] in *; try reflexivity.
-  - (* GetSlice *) destruct (own_slice C) eqn:HC.
-    + rewrite (slice_full C st a b c HC). reflexivity.
-    + unfold m_getslice. rewrite HC. destruct (py_getslice st a b c) as [[|x t]|e]; [discriminate| |]; reflexivity.
+  - (* GetSlice *) rewrite (slice_full C st a b c). reflexivity.
   - rewrite m_iter_spec. reflexivity.
   - rewrite single_operand_agree by assumption. reflexivity.
   - rewrite single_operand_agree by assumption. reflexivity.
@@ -340,11 +344,10 @@ Definition enc_step (x : list Z * res out) : list Z := enc_out (snd x) ++ zlen (
 
 (* root cause of a disagreement between model and specification:
    2 construction from an empty list, 4 empty object accepted as a value, 9 none expected
-   (1 slice index arithmetic and 3 extend by a single value were repaired in /repo and are no longer produced) *)
+   (1 slice index arithmetic, 3 extend by a single value, and the empty slice of the SpatialVector classes were
+   repaired in /repo and are no longer produced) *)
 Definition classify (C : cls) (st : list Z) (o : op) : Z :=
   match o with
-  | GetSlice a b c =>
-      if own_slice C then 9 else 2
   | CtorIter | CtorFrom _ => 2
   | SetItem _ _ | Append _ | Insert _ _ => 4
   | _ => 9
